@@ -187,7 +187,7 @@ class C19(Prop):
             # blank lines between the genuine lines: they carry nothing, and must not shift what a message points at
             for _ in range(g.choice([1, 2, 4])):
                 junk.append([st.fault.choice(ss), g.choice(["", "", "   ", "\t"])])
-        return {"base": base, "junk": junk, "channel": draw_read_channel(g, ascii_only=True, allow_cr=False),
+        return {"base": base, "junk": junk, "channel": draw_read_channel(g, ascii_only=True, allow_cr=False, used_object_p=0.06),
                 "policy": Policy.draw(st.io).to_json(),
                 "rkw": g.choice([{}, {}, {"mnemonic_case": "lower"}, {"mnemonic_case": "preserve"}, {"engine": "normal"}, {"ignore_data": True},
                                  {"null_policy": "none"}])}
